@@ -968,11 +968,12 @@ func (m *Model) Filter(name string, x any, args []any) (any, Status) {
 		}
 		out := make([]any, len(c))
 		for i, e := range c {
-			mr, ok := e.(*MapRef)
-			if !ok {
-				return un("element %T", e)
+			// per-element property lookup, exactly as e.key would do it (including the size fallback)
+			v, st := m.property(e, key, false)
+			if st != StOK {
+				return nil, st
 			}
-			out[i] = mr.M[key]
+			out[i] = v
 		}
 		return out, StOK
 	case "upcase", "downcase", "strip", "lstrip", "rstrip", "capitalize":
